@@ -98,24 +98,24 @@ var enableSSH = true
 var debugBodies bool
 
 func newEnv() (*env, error) {
-	ca, err := fixture.New(fixture.Opts{
-		SSH:          true,
+	// The CA is the one the repository's own ca.New / (*CA).Init assembles from a configuration on disk (real
+	// routers, request-id, logger and the other middleware, base context); requests are served in-process through
+	// the handler Init built for the TLS server (hook ca.VerifHandler). With a "logger" section and
+	// STEP_LOGGER_LOG_REAL_IP the logger parses the proxy headers of every request.
+	os.Setenv("STEP_LOGGER_LOG_REAL_IP", "true")
+	real, err := fixture.NewRealCA(fixture.RealOpts{
 		JWKClaims:    &provisioner.Claims{EnableSSHCA: &enableSSH},
 		CRL:          &config.CRLConfig{Enabled: true},
 		Provisioners: provisioner.List{&provisioner.SSHPOP{Type: "SSHPOP", Name: "sshpop"}, &provisioner.ACME{Type: "ACME", Name: "acme"}},
-		Config:       func(cfg *config.Config) { cfg.AuthorityConfig.EnableAdmin = true },
+		EnableAdmin:  true,
+		Logger:       true,
 	})
 	if err != nil {
 		return nil, err
 	}
+	ca := real.CA
 	e := &env{ca: ca, statusHis: map[int]int{}, sshConfigBase: map[string]string{}}
-	// the request logger wraps every endpoint when the configuration has a "logger" section; with
-	// STEP_LOGGER_LOG_REAL_IP it parses the proxy headers of every request
-	os.Setenv("STEP_LOGGER_LOG_REAL_IP", "true")
-	fixture.WithLogger = true
-	if e.srv, err = ca.NewServer(); err != nil {
-		return nil, err
-	}
+	e.srv = real.Server()
 	// administrator client certificate (subject "step" is the first super admin)
 	csr, key, _ := fixture.CSR("step", []string{"step"})
 	chain, err := ca.SignX509(must(ca.Token(fixture.TokenOpts{Subject: "step"})), csr, provisioner.SignOptions{})
